@@ -44,6 +44,7 @@ type avoid struct {
 	schemaChange        bool
 	blockGrowth         bool
 	enumBesideReaders   bool
+	indexDuringApply    bool
 	rollbackInsert      bool
 	sortDupKeys         bool
 	rekey               bool
@@ -70,6 +71,7 @@ func (a avoid) list() (out []string) {
 	add(a.schemaChange, "schema-change-beside-activity")
 	add(a.blockGrowth, "growth-beside-readers")
 	add(a.enumBesideReaders, "enum-write-beside-readers")
+	add(a.indexDuringApply, "index-build-during-apply")
 	add(a.rollbackInsert, "rollback-insert")
 	return
 }
